@@ -1229,6 +1229,74 @@ fn sep_punct_rs(c: char) -> bool {
 }
 /// sent_ok on the implementation's predicates
 fn items_ok_rs(its: &[SItem]) -> bool {
+    // phase 6 (C06SentenceDot.v: sentp_ok): ONE final period after a sentence of the class whose last item, when it is a word,
+    // is none of the words condense_latin looks for in front of a period (etc, vs, al — any ASCII capitalisation)
+    if let Some((SItem::P('.'), front)) = its.split_last() {
+        if let Some(SItem::W(w)) = front.last() {
+            let ws: String = w.iter().collect();
+            if w.len() == ws.len() && ["etc", "vs", "al"].iter().any(|x| ws.eq_ignore_ascii_case(x)) {
+                return false;
+            }
+        }
+        return items_ok_front(front);
+    }
+    // phase 6, step 2 (C06SentenceContr.v: sentc_ok): an item list with an apostrophe item is a sentence with contractions
+    if its.iter().any(|it| matches!(it, SItem::P('\'') | SItem::P('\u{2019}'))) {
+        return contr_collapse(its).is_some();
+    }
+    items_ok_front(its)
+}
+/// sentc_ok + collapse (C06SentenceContr.v) on the implementation's predicates: W q W triples (q an apostrophe) are grouped
+/// greedily from the left, exactly like the driver; Some(collapsed items) iff the grouped list is of the class
+fn contr_collapse(its: &[SItem]) -> Option<Vec<SItem>> {
+    let is_apos = |it: &SItem| matches!(it, SItem::P('\'') | SItem::P('\u{2019}'));
+    let mut out: Vec<(SItem, bool)> = vec![]; // (collapsed item, word-like)
+    let mut i = 0;
+    while i < its.len() {
+        match (&its[i], its.get(i + 1), its.get(i + 2)) {
+            (SItem::W(w1), Some(q), Some(SItem::W(w2))) if is_apos(q) => {
+                let qc = if let SItem::P(c) = q { *c } else { unreachable!() };
+                if !is_body_rs(w1) || !is_body_rs(w2) || (w1.len() == 1 && qc == '\'' && w2.len() == 1 && w2[0] == 's') {
+                    return None;
+                }
+                let mut w = w1.clone();
+                w.push(qc);
+                w.extend(w2);
+                out.push((SItem::W(w), true));
+                i += 3;
+            }
+            (SItem::W(w), _, _) => {
+                if !is_body_rs(w) {
+                    return None;
+                }
+                out.push((SItem::W(w.clone()), true));
+                i += 1;
+            }
+            (SItem::S(n), _, _) => {
+                if *n == 0 {
+                    return None;
+                }
+                out.push((SItem::S(*n), false));
+                i += 1;
+            }
+            (SItem::P(c), _, _) => {
+                if !sep_punct_rs(*c) {
+                    return None;
+                }
+                out.push((SItem::P(*c), false));
+                i += 1;
+            }
+        }
+    }
+    for k in 0..out.len().saturating_sub(1) {
+        if (out[k].1 && out[k + 1].1) || matches!((&out[k].0, &out[k + 1].0), (SItem::S(_), SItem::S(_))) {
+            return None;
+        }
+    }
+    Some(out.into_iter().map(|x| x.0).collect())
+}
+/// sent_ok (phase 5) on the implementation's predicates
+fn items_ok_front(its: &[SItem]) -> bool {
     for (i, it) in its.iter().enumerate() {
         let ok = match it {
             SItem::W(w) => is_body_rs(w),
@@ -1328,7 +1396,11 @@ fn sentence_items_case(cx: &mut Ctx, rep: &mut Report, _shared: &mut Rng, its: &
     let r = &mut lr;
     rep.eval();
     let ok = items_ok_rs(its);
-    let (text, spans, wspans) = items_text(its);
+    let (text, _, _) = items_text(its);
+    // expected tokens: one per item — after condense_contractions, i.e. per item of the collapsed list (phase 6, step 2)
+    let has_apos = its.iter().any(|it| matches!(it, SItem::P('\'') | SItem::P('\u{2019}')));
+    let collapsed: Vec<SItem> = if ok && has_apos && !matches!(its.last(), Some(SItem::P('.'))) { contr_collapse(its).unwrap_or_else(|| its.to_vec()) } else { its.to_vec() };
+    let (_, spans, wspans) = items_text(&collapsed);
     let line = format!("S {}", items_line(its));
     rep.count(&format!("sentence_items:{}:{}", what, if ok { "in the class" } else { "outside the class" }));
     if !ok {
@@ -1360,7 +1432,7 @@ fn sentence_items_case(cx: &mut Ctx, rep: &mut Report, _shared: &mut Rng, its: &
     if iw != wspans {
         rep.fail(
             "sentence_tokens_differ",
-            format!("{:?} is a sentence of the class (words = letter + letters/digits, blanks, separator punctuation): one token per item {:?} with Word tokens {:?} expected, the implementation yields tokens {:?} with Word tokens {:?}", s, spans, wspans, all, iw),
+            format!("{:?} is a sentence of the class (words = letter + letters/digits, blanks, separator punctuation, optionally one final period / contractions w'w): one token per (collapsed) item {:?} with Word tokens {:?} expected, the implementation yields tokens {:?} with Word tokens {:?}", s, spans, wspans, all, iw),
             inp,
         );
         return false;
@@ -1368,7 +1440,7 @@ fn sentence_items_case(cx: &mut Ctx, rep: &mut Report, _shared: &mut Rng, its: &
     if lint && !wspans.is_empty() {
         let di = r.below(4);
         let d = DIALECTS[di];
-        let words: Vec<(usize, usize, u8)> = its
+        let words: Vec<(usize, usize, u8)> = collapsed
             .iter()
             .filter_map(|it| if let SItem::W(w) = it { Some(w) } else { None })
             .zip(wspans.iter())
@@ -1884,6 +1956,93 @@ fn main() {
         }
         let its = random_items(&cx, &mut rs);
         sentence_items_case(&mut cx, &mut rep, &mut rs, &its, "generated", true);
+    }
+    // ----- phase 6: the same sentences with ONE final period (C06SentenceDot.v; theorems C06_sentence_period_*): 1 in 6 ends with a
+    // word condense_latin looks for (outside the class: the model must say N), 1 in 12 with a one-letter word (lone letter + period)
+    let mut rp = Rng::new(args.seed ^ 0xD07_F1AA1_C06);
+    for i in 0..args.scale(700, 25_000) {
+        if i % 64 == 0 && enough(&mut rep) {
+            break;
+        }
+        let mut its = random_items(&cx, &mut rp);
+        match rp.below(12) {
+            0 | 1 => {
+                if !matches!(its.last(), Some(SItem::S(_)) | None) {
+                    its.push(SItem::S(1 + rp.below(2)));
+                }
+                if rp.chance(1, 3) {
+                    its.push(SItem::W(chars(*rp.pick(&["et", "Et", "ET"]))));
+                    its.push(SItem::S(1 + rp.below(2)));
+                    its.push(SItem::W(chars(*rp.pick(&["al", "Al", "AL", "all", "a"]))));
+                } else {
+                    its.push(SItem::W(chars(*rp.pick(&["etc", "Etc", "ETC", "vs", "VS", "Vs", "al", "aL", "etcs", "et", "v", "als"]))));
+                }
+            }
+            2 => {
+                if !matches!(its.last(), Some(SItem::S(_)) | None) {
+                    its.push(SItem::S(1));
+                }
+                its.push(SItem::W(vec![*rp.pick(&['a', 'I', 'x', 's', 'A'])]));
+            }
+            _ => {}
+        }
+        its.push(SItem::P('.'));
+        if rp.chance(1, 25) {
+            its.push(SItem::P('.'));
+        }
+        sentence_items_case(&mut cx, &mut rep, &mut rp, &its, "generated, final period", true);
+    }
+    // ----- phase 6, step 2: sentences with CONTRACTIONS (C06SentenceContr.v; theorems C06_sentence_contraction_*): word items are
+    // replaced by  w1 q w2  taken from listed contractions (don't, it's, MP3's: listed; one letter changed: mostly unlisted), random
+    // bodies, both apostrophe characters; near misses: a's (glued by the lexer), x'y'z, a digit-first part, a dangling apostrophe
+    let contractions: Vec<Vec<char>> = cx
+        .words
+        .iter()
+        .filter(|w| w.iter().filter(|c| **c == '\'').count() == 1 && is_alnum_rs(w) && !is_body_rs(w))
+        .cloned()
+        .collect();
+    let mut rc = Rng::new(args.seed ^ 0xC0_17AC_7105);
+    for i in 0..args.scale(700, 25_000) {
+        if i % 64 == 0 && enough(&mut rep) {
+            break;
+        }
+        let base = random_items(&cx, &mut rc);
+        let mut its: Vec<SItem> = vec![];
+        let mut any = false;
+        for it in base {
+            match it {
+                SItem::W(w) if rc.chance(1, 2) || !any => {
+                    any = true;
+                    let q = if rc.chance(1, 3) { '\u{2019}' } else { '\'' };
+                    let (w1, w2): (Vec<char>, Vec<char>) = match rc.below(10) {
+                        0..=5 if !contractions.is_empty() => {
+                            let c = rc.pick(&contractions).clone();
+                            let c = match rc.below(6) { 0 => cap1(&c), 1 => upper(&c), 2 => mutate(&mut rc, &c), _ => c };
+                            match c.iter().position(|x| *x == '\'') {
+                                Some(k) => (c[..k].to_vec(), c[k + 1..].to_vec()),
+                                None => (c.clone(), vec!['s']),
+                            }
+                        }
+                        6 => (w.clone(), vec!['s']),
+                        7 => (random_body(&mut rc), random_body(&mut rc)),
+                        8 => (vec![*rc.pick(&['a', 'I', 'x', 'o', 'A'])], chars(*rc.pick(&["s", "s", "so", "clock", "m", "S"]))),
+                        _ => (w.clone(), chars(*rc.pick(&["t", "ll", "re", "ve", "d", "s5", "5s", ""]))),
+                    };
+                    its.push(SItem::W(w1));
+                    its.push(SItem::P(q));
+                    its.push(SItem::W(w2));
+                    if rc.chance(1, 30) {
+                        its.push(SItem::P('\''));
+                        its.push(SItem::W(vec!['s']));
+                    }
+                }
+                other => its.push(other),
+            }
+        }
+        if rc.chance(1, 40) {
+            its.push(SItem::P('\''));
+        }
+        sentence_items_case(&mut cx, &mut rep, &mut rc, &its, "generated, contractions", true);
     }
     {
         let multi: Vec<String> = cx.multi_committed.iter().cloned().collect();
